@@ -308,6 +308,7 @@ func ZzC12LeasedP1L2() { zzC12P([]int{6}, 2, true) }
 func ZzC12MinedL3() { zzC12(3, true) }
 func ZzC12MinedL4() { zzC12(4, true) }
 func ZzC12UnminedL3() { zzC12(3, false) }
+func ZzC12UnminedL2() { zzC12(2, false) }
 func ZzC12UnminedL4() { zzC12(4, false) }
 
 // zzTickClock: the clock moves while an operation runs. The first `early`
